@@ -262,7 +262,24 @@ def apply_step(sb, step):
         raise ValueError(op)
 
 
+def run_lru(case):
+    """the cache object exactly as YamlTargetSource.__init__ builds it, driven directly"""
+    import vinegar.utils.cache as vc
+    size = case["size"]
+    cache = vc.NullCache() if size <= 0 else vc.SynchronizedCache(vc.LRUCache(cache_size=size))
+    gets = []
+    for op in case["ops"]:
+        if op[0] == "get":
+            gets.append(cache.get(op[1], None))
+        else:
+            cache[op[1]] = op[2]
+    keys = sorted(k for k in case["alphabet"] if k in cache)
+    return {"lru": {"gets": gets, "keys": keys, "len": len(cache)}}
+
+
 def run_c12(case):
+    if case.get("kind") == "lru":
+        return run_lru(case)
     cfg = case["cfg"]
     srcs, texts = Interner("S"), Interner("T")
     text_table, top_table, render_table = {}, {}, {}
